@@ -2,7 +2,7 @@
    alphabet (side-effect blocks included), whatever comes after the gap. *)
 From Coq Require Import List Arith Bool NArith Lia.
 From GV Require Import Base.Result Gen.TokenTypes Gen.Defs Model.Parser Spec.Layout Spec.LayoutSim
-  Proofs.C03.Bounded4 Proofs.C18.Main Proofs.C18.SettledBounded.
+  Proofs.C03.Bounded4 Proofs.C18.Main Proofs.C18.SettledBounded Proofs.C18.Insert.
 Import ListNotations.
 
 Lemma drop_while_trim_suffix l : exists a, l = a ++ drop_while_trim l.
@@ -33,4 +33,16 @@ Proof.
   apply settled_after_bounded_4_rep.
   - rewrite Ha, app_length in Hl. lia.
   - intros t Ht. apply Hin. rewrite Ha. apply in_or_app. right. exact Ht.
+Qed.
+
+Theorem annotation_insert_prefix_6_block pre post a t :
+  length pre <= 6 -> (forall x, In x pre -> In x block_alphabet) ->
+  has_sig pre = true -> has_sig post = true -> is_annotation_tok a = true ->
+  parse_tree (pre ++ post) = Some t -> parse_tree (pre ++ [a] ++ post) = Some t.
+Proof.
+  intros Hl Hin Hp Hq. apply annotation_insert; [exact Hp|exact Hq|].
+  destruct (drop_while_trim_suffix pre) as [b Hb].
+  apply settled_after_bounded_6_block.
+  - rewrite Hb, app_length in Hl. lia.
+  - intros x Hx. apply Hin. rewrite Hb. apply in_or_app. right. exact Hx.
 Qed.
